@@ -734,3 +734,30 @@ Proof.
   - destruct (str_eqb (e_src e) (cn_name x)) eqn:Eq; [|reflexivity]. apply str_eqb_eq in Eq. rewrite (S1 Eq). cbn. apply pair_eqb_refl.
   - destruct (str_eqb (e_dst e) (cn_name x)) eqn:Eq; [|reflexivity]. apply str_eqb_eq in Eq. rewrite (S2 Eq). cbn. apply pair_eqb_refl.
 Qed.
+
+(* ------------------------------------------------------------------ signal names determine their links: a consequence of acceptance *)
+Theorem compile_names_sep d g c nt : compile d g = Ok c -> names_sep g nt.
+Proof.
+  unfold compile. intros H. inv_bind H.
+  match goal with E : (if nodupb str_eqb (map _ (filter is_link (g_edges g))) then _ else _) = Ok _ |- _ =>
+    destruct (nodupb str_eqb (map (fun e => e_src e +++ "_to_" +++ e_dst e) (filter is_link (g_edges g)))) eqn:N; [|discriminate E] end.
+  apply nodupb_str in N. intros l1 l2 (e1 & H1 & L1 & S1 & D1) (e2 & H2 & L2 & S2 & D2) Hf.
+  assert (Hb : (fun e => e_src e +++ "_to_" +++ e_dst e) e1 = (fun e => e_src e +++ "_to_" +++ e_dst e) e2).
+  { cbv beta. unfold flow in Hf. rewrite <- S1, <- D1, <- S2, <- D2 in Hf.
+    apply (sapp_inj_r ("_" +++ net_name nt)).
+    rewrite !sapp_assoc'. exact Hf. }
+  assert (e1 = e2).
+  { eapply (NoDup_map_eq (fun e => e_src e +++ "_to_" +++ e_dst e)); [exact N| | |exact Hb]; apply filter_In; split; assumption. }
+  subst e2. destruct l1, l2. cbn in *. congruence.
+Qed.
+
+Theorem names_sepb_holds d g c nt : compile d g = Ok c -> names_sepb g nt = true.
+Proof.
+  intros Hc. pose proof (compile_names_sep d g c nt Hc) as Hs. unfold names_sepb.
+  apply forallb_forall. intros e1 H1. apply forallb_forall. intros e2 H2.
+  destruct (str_eqb (flow nt (epair e1)) (flow nt (epair e2))) eqn:Eq; [|reflexivity]. cbn [negb orb].
+  apply str_eqb_eq in Eq. unfold link_edges in H1, H2. apply filter_In in H1, H2.
+  assert (A : is_link_of g (epair e1)) by (exists e1; unfold epair; cbn; tauto).
+  assert (B : is_link_of g (epair e2)) by (exists e2; unfold epair; cbn; tauto).
+  rewrite (Hs _ _ A B Eq). apply pair_eqb_refl.
+Qed.
